@@ -287,7 +287,7 @@ func main() {
 			logw = f
 		}
 		t0 := time.Now()
-		pump(os.Stdin, logw, h, st, *nw, map[string]bool{"SCHEMA": true})
+		pump(os.Stdin, logw, h, st, *nw, map[string]bool{"SCHEMA": true, "POOL": true})
 		for _, f := range atExit {
 			f()
 		}
